@@ -5,6 +5,7 @@ import (
 	"go/constant"
 	"go/token"
 	"go/types"
+	"strings"
 
 	"golang.org/x/tools/go/ssa"
 )
@@ -29,8 +30,10 @@ func runC11(c *Ctx) {
 	p := c.Progs["mod"]
 	c.Rule("C11.E", "encoder/decoder agreement between poll replies and data posts", 7)
 	c.Rule("C11.Q", "messages move only through two FIFO channels with one producer/consumer goroutine", 5)
-	c.Rule("C11.O", "order and completeness on both endpoints", 14)
+	c.Rule("C11.O", "order and completeness on both endpoints; request bodies are read whole", 15)
 	c.Rule("C11.J", "header injection only adds missing keys", 7)
+	c.Rule("C11.V", "the protocol version is read from a request header nothing has edited: the handshake header is a filtered copy (= C09.N)", 1)
+	c.Borrow(runC09, "C09.N", "C11.V", func(k string) bool { return strings.HasPrefix(k, "stripWSHeader") })
 	const pkg = ModPath + "/agent/websockets"
 
 	ser := c.need(p, "C11.E", "agent/websockets.(*message).Serialize")
@@ -171,6 +174,7 @@ func runC11(c *Ctx) {
 
 	// ---- C11.O
 	rulePollErrorOnlyWhenDrained(c, p, "C11.O")
+	ruleShimBodiesReadWhole(c, p, "C11.O")
 	se := resolveShimEndpoints(c, p, "C11.O")
 	if se != nil && se.ByName["data"] != nil {
 		d := se.ByName["data"]
